@@ -23,3 +23,13 @@ Definition jpeg_case (c : list Z * option (Z * Z)) : bool :=
   | Some NotFound, None => true
   | _, _ => false
   end.
+
+(* case = (data starting with FF D8, implementation's (w or 0, h or 0)); "not found" and zero
+   dimensions are the same observable value (None, None) *)
+Definition ooxml_jpeg_case (c : list Z * (Z * Z)) : bool :=
+  let '(d, (w', h')) := c in
+  match ooxml_jpeg_dims (fuel_for d 2) d 2 with
+  | Some (Found w h) => (w =? w') && (h =? h')
+  | Some NotFound => (w' =? 0) && (h' =? 0)
+  | None => false
+  end.
